@@ -523,6 +523,19 @@ class Rewriter(Client):
         return self.next_queued()
 
     def next_queued(self):
+        if self.queue and not getattr(self, "_twinned", False):
+            # a shallow copy taken just before the rewrite: the two circuits
+            # share component objects while one of them is rewritten
+            self._twinned = True
+            for i, o in enumerate(self.queue):
+                if o["op"] in ("compress", "remove_nonadj", "unpack") \
+                        and self.rng.random() < 0.4:
+                    self.queue.insert(i, {"op": "copy", "c": o["c"],
+                                          "out": self.w.new_id("c")})
+                    self.w.stats["intent:twin_before_rewrite"] += 1
+                    break
+        if not self.queue:
+            self._twinned = False
         while self.queue:
             o = self.queue.pop(0)
             if o["op"] == "param_set":
